@@ -162,10 +162,15 @@ def planned_execs(limit, seed):
     return out
 
 
-def jobs_c14(prop, tier, seed):
+def jobs_c14(prop, tier, seed, reduced=False):
     rng = random.Random(seed * 15485863 + 14)
     s = 1 if tier == "quick" else 30
     J = []
+    if reduced:     # the part other properties' checks run (C01, C05): nesting, races, a few planned schedules
+        s = 1 if tier == "quick" else 6
+        execs = known_shapes() + [nesting_exec(rng) for _ in range(8 * s)] + [race_exec(rng) for _ in range(20 * s)]
+        execs += [par_exec(rng, rng.choice([2, 3])) for _ in range(10 * s)] + planned_execs(10 if tier == "quick" else 200, seed)
+        return [Job("base", "temp", "TempTrace", execs, "temp", also=("TempListTrace",))]
     for cfg in ("base", "dbg"):
         execs = known_shapes()
         execs += [nesting_exec(rng) for _ in range(12 * s)]
